@@ -1,11 +1,16 @@
 """C06: the repository's own testdata/*.emb through the text round trip.
 
-No generator knowledge here: for every struct without runtime parameters a generic driver tries
-a set of buffers (zero / pattern / random fill, many sizes); for those whose view is Ok it does
-WriteToString, UpdateFromText into a zeroed buffer of the same size, and WriteToString again.
+No generator knowledge here: for every struct (structs with runtime parameters of integer or
+enum type included: a few parameter tuples each) a generic driver tries a set of buffers (zero /
+pattern / random fill, many sizes); for those whose view is Ok it does WriteToString,
+UpdateFromText into a zeroed buffer of the same size (same parameters), and WriteToString again.
 Oracle (statement): UpdateFromText returns true and the second text equals the first (all emitted
-fields read back equal ⇒ same text).  Multi-line texts containing an array with two or more
+fields read back equal ⇒ same text); every field name in the text stands after the names it
+depends on, the dependencies being read off the parsed source (c06_deps, transitively through
+virtual fields) — at every struct level.  Multi-line texts containing an array with two or more
 elements are only counted (open finding `multiline-array-elements-not-comma-separated`).
+`corpus/C06/*.emb` (hand-written dependency shapes, pinned inputs of repaired findings) run in
+both tiers.
 """
 import os
 import re
@@ -13,6 +18,7 @@ import re
 from harness.lib import common, cppbuild, emb
 from harness.corr import c06_int as I
 from harness.corr import c06_txt as T
+from harness.corr import c06_deps as D
 
 QUICK_FILES = ["text_format.emb", "dynamic_size.emb", "anonymous_bits.emb"]
 SKIP_FILES = {"importer.emb", "importer2.emb", "no_enum_traits.emb", "no_cpp_namespace.emb",
@@ -35,10 +41,11 @@ static void RunCorpus(Make make, int multiline, int comments, int base, int grou
        .WithDigitGrouping(grouping != 0);
   if (multiline) o = o.WithIndent("  ");
   std::string text = ::emboss::WriteToString(v, o);
+  std::cout << " text=" << Hex(text) << std::flush;
   auto w = make(b2.get(), n);
   bool upd = ::emboss::UpdateFromText(w, text);
   std::string text2 = ::emboss::WriteToString(w, o);
-  std::cout << " upd=" << upd << " text=" << Hex(text) << " text2=" << Hex(text2) << "\n";
+  std::cout << " upd=" << upd << " text2=" << Hex(text2) << "\n";
 }
 """
 
@@ -51,29 +58,114 @@ def candidates(r, tier):
         if n and n <= 64:
             out.append(bytes([1]) * n)
             out.append(bytes([n & 0xff]) + bytes(n - 1))
+        if n and n <= 16:
+            out.append(bytes([0xff]) * n)          # sign bits set: negative Int / signed enum values
+            out.append(bytes([0x80]) * n)
+            out.append(bytes([1]) + bytes([0xfb, 0xff] * n)[:n - 1])
     for _ in range(30 if tier == "quick" else 300):
         n = r.choice(sizes[:48])
         out.append(bytes(r.randrange(256) if r.random() < 0.5 else r.choice([0, 1, 2, 3]) for _ in range(n)))
     return out
 
 
+PARAM_VALUES = [0, 1, 2, 3, 10, 23, -1]
+_BOUNDS = {}      # (namespace, struct) -> [None | (min, max) per parameter]: declared range of integer parameters
+
+
+def param_kinds(t, ns):
+    """[(kind, C++ cast)] for the runtime parameters of a type, None if some parameter is of a kind
+    the generic driver cannot supply."""
+    out = []
+    bounds = _BOUNDS.setdefault((ns, t["name"]["name"]["text"]), [])
+    del bounds[:]
+    for prm in t.get("runtime_parameter", []):
+        ty = prm.get("type", {})
+        if "enumeration" in ty:
+            path = ty["enumeration"]["name"]["canonical_name"]["object_path"]
+            out.append("static_cast<::%s::%s>" % (ns, "::".join(path)))
+            bounds.append(None)
+        elif "integer" in ty:
+            out.append("static_cast<long long>")
+            try:
+                bounds.append((int(ty["integer"]["minimum_value"]), int(ty["integer"]["maximum_value"])))
+            except (KeyError, ValueError):
+                bounds.append(None)
+            continue
+        else:
+            return None
+    return out
+
+
+def param_tuples(n, r, bounds=None):
+    """A few parameter tuples; integer parameters stay inside their declared range."""
+    if n == 0:
+        return [()]
+    bounds = bounds or [None] * n
+
+    def fit(v, b):
+        return v if b is None or b[0] <= v <= b[1] else max(b[0], min(b[1], v))
+    out = [tuple(fit(v, b) for b in bounds) for v in PARAM_VALUES]
+    for _ in range(6):
+        out.append(tuple(fit(r.choice(PARAM_VALUES), b) for b in bounds))
+    seen, uniq = set(), []
+    for t in out:
+        if t not in seen:
+            seen.add(t)
+            uniq.append(t)
+    return uniq
+
+
+def corpus_files(tier):
+    d = os.path.join(common.REPO, "testdata")
+    names = QUICK_FILES if tier == "quick" else sorted(f for f in os.listdir(d) if f.endswith(".emb"))
+    out = [("testdata/" + fn, os.path.join(d, fn)) for fn in names if fn not in SKIP_FILES]
+    cd = os.path.join(common.VERIF, "corpus", "C06")
+    if os.path.isdir(cd):
+        out += [("corpus/C06/" + fn, os.path.join(cd, fn)) for fn in sorted(os.listdir(cd)) if fn.endswith(".emb")]
+    return out
+
+
+def crash_records(chk, binary, lines, res, origin, text, table):
+    """Locates the failing line(s) of an abnormally ended driver run, reports each with the
+    module, struct, buffer, parameters, options and the text written so far (judged for emission
+    order).  Returns the per-line answers of the structs that ran cleanly."""
+    answers, crashes = T.isolate_crashes(binary, lines, res)
+    for bad, one in crashes:
+        rec = {"part": "TXT", "origin": origin, "emb": text,
+               "observed": ["%s: %s" % (one.kind, one.err[-1500:])],
+               "expected": "no sanitizer report / failed CHECK; every field after the fields it depends on"}
+        rec.update(T.line_fields(bad))
+        if bad:
+            rec["parameters"] = [int(x) for x in bad.split(" ")[6:]]
+            import re as _re
+            m = _re.search(r"text=([0-9a-f]*)", one.out or "")
+            if m:
+                rec["text"] = I.unhex(m.group(1))
+                try:
+                    parsed, _ = T.parse_text(rec["text"])
+                    D.check_text(table, D.find_struct(table, bad.split(" ")[0]), parsed, "", rec["observed"])
+                except T.ParseError:
+                    rec["observed"].append("text does not parse")
+        chk.violation("input", rec)
+    return answers
+
+
 def run_corpus(chk, tier):
     r = common.rng("C06-corpus")
     stats = chk.extra.setdefault("testdata_corpus", {})
-    d = os.path.join(common.REPO, "testdata")
-    files = QUICK_FILES if tier == "quick" else sorted(f for f in os.listdir(d) if f.endswith(".emb"))
     scratch = os.path.join(common.scratch(), "c06corpus")
     os.makedirs(scratch, exist_ok=True)
     jobs, metas = [], []
-    for fn in files:
-        if fn in SKIP_FILES:
-            continue
-        with open(os.path.join(d, fn)) as f:
+    ns_of = {}
+    for origin, path in corpus_files(tier):
+        fn = os.path.basename(path)
+        with open(path) as f:
             text = f.read()
         m = re.search(r'\[\(cpp\) namespace:\s*"([^"]+)"\]', text)
         if not m:
             continue
-        ns = m.group(1)
+        ns = m.group(1).strip(":")
+        ns_of[origin] = ns
         ir, errors, exc = emb.compile_text({"m.emb": text})
         if ir is None or errors or exc:
             stats["not_compiled"] = stats.get("not_compiled", 0) + 1
@@ -82,98 +174,147 @@ def run_corpus(chk, tier):
         if header is None or herr:
             continue
         dct = emb.ir_to_dict(ir)
-        structs = [t["name"]["name"]["text"] for t in dct["module"][0]["type"]
-                   if "structure" in t and not t.get("runtime_parameter") and t.get("addressable_unit") in ("BYTE", 8)]
+        table = D.module_table(dct)
+        structs = []          # (name, [casts])
+        for t in dct["module"][0]["type"]:
+            if "structure" not in t or t.get("addressable_unit") not in ("BYTE", 8):
+                continue
+            casts = param_kinds(t, ns)
+            if casts is None:
+                stats["structs_with_unsupported_parameters"] = stats.get("structs_with_unsupported_parameters", 0) + 1
+                continue
+            structs.append((t["name"]["name"]["text"], casts))
         if not structs:
             continue
-        hname = "td_%s.h" % fn[:-4]
+        tag = re.sub(r"[^A-Za-z0-9_]", "_", origin[:-4])
+        hname = "td_%s.h" % tag
         with open(os.path.join(scratch, hname), "w") as f:
             f.write(header)
         src = [cppbuild.CHECK_PRELUDE, '#include "%s"' % hname, T.DRIVER_PRELUDE, RUN,
                "int main() {\n  std::string line;\n  while (std::getline(std::cin, line)) {\n"
                "    std::istringstream in(line);\n    std::string name, hex; int m, c, b, g;\n"
-               "    in >> name >> m >> c >> b >> g >> hex;\n    std::string bytes = Unhex(hex);\n    if (false) {}"]
-        for s in structs:
-            src.append('    else if (name == "%s") RunCorpus([](unsigned char *d, size_t n) { return ::%s::Make%sView(d, n); },'
-                       ' m, c, b, g, bytes);' % (s, ns, s))
+               "    in >> name >> m >> c >> b >> g >> hex;\n    std::string bytes = Unhex(hex);\n"
+               "    long long P[8] = {0, 0, 0, 0, 0, 0, 0, 0};\n    for (int i = 0; i < 8; ++i) { if (!(in >> P[i])) break; }\n"
+               "    (void)P;\n    if (false) {}"]
+        for s_name, casts in structs:
+            args = "".join("%s(P[%d]), " % (c, i) for i, c in enumerate(casts))
+            src.append('    else if (name == "%s") RunCorpus([&](unsigned char *d, size_t n) { return ::%s::Make%sView(%sd, n); },'
+                       ' m, c, b, g, bytes);' % (s_name, ns, s_name, args))
         src.append('    else std::cout << "bad-op\\n";\n  }\n  return 0;\n}')
-        jobs.append({"src_text": "\n".join(src), "name": "c06td_" + fn[:-4], "extra": ["-I" + scratch],
+        jobs.append({"src_text": "\n".join(src), "name": "c06td_" + tag, "extra": ["-I" + scratch],
                      "compiler": "clang++", "opt": "-O0"})
-        metas.append((fn, text, structs))
+        metas.append((origin, text, structs, table))
     bins = cppbuild.compile_many(jobs, workers=8)
     cands = candidates(r, tier)
-    # first pass: which buffers are Ok (single option set)
+    # first pass: which buffers (and parameter tuples) are Ok (single option set)
     items, idx = [], []
-    for (fn, text, structs), (binary, log) in zip(metas, bins):
+    for (origin, text, structs, table), (binary, log) in zip(metas, bins):
         if binary is None:
-            stats.setdefault("driver_compile_failed", []).append(fn)
+            stats.setdefault("driver_compile_failed", []).append(origin)
+            hname = "td_%s.h" % re.sub(r"[^A-Za-z0-9_]", "_", origin[:-4])
+            probe, _plog = cppbuild.compile_one(cppbuild.CHECK_PRELUDE + '#include "%s"\nint main() { return 0; }\n' % hname,
+                                                name="c06td_probe", extra=["-I" + scratch], compiler="clang++", opt="-O0")
+            if probe is None:
+                if origin.startswith("corpus/"):
+                    raise common.InfraError("driver for %s does not compile (nor does the bare header):\n%s" % (
+                        origin, log[-3000:]))
+                continue
+            chk.violation("input", {
+                "part": "TXT", "origin": origin, "emb": text, "kind_of_failure": "text-io-does-not-compile",
+                "observed": ["the generated header compiles, WriteToString / UpdateFromText of its structs does not"] +
+                            [ln for ln in log.split("\n") if "error" in ln][:6],
+                "compiler_log_tail": log[-3000:],
+                "expected": "for every accepted module WriteToString and UpdateFromText of every struct compile and "
+                            "round-trip"})
             continue
-        lines = ["%s 0 0 10 0 %s" % (s, b.hex() or "-") for s in structs for b in cands]
+        lines = []
+        for s_name, casts in structs:
+            tuples = param_tuples(len(casts), r, _BOUNDS.get((ns_of[origin], s_name)))
+            bufs = cands if not casts else cands[:: max(1, len(cands) // 60)]
+            for pt in tuples:
+                for b in bufs:
+                    lines.append("%s 0 0 10 0 %s%s" % (s_name, b.hex() or "-", "".join(" %d" % v for v in pt)))
         items.append((binary, "\n".join(lines) + "\n"))
-        idx.append((fn, text, structs, lines))
+        idx.append((origin, text, structs, table, lines))
     res1 = T.run_many_long(items, workers=6)
     items2, idx2 = [], []
     opts = [(m, c, b, g) for (m, c) in T.LAYOUTS_RR for b in T.BASES for g in (0, 1)]
-    for (fn, text, structs, lines), (binary, _), res in zip(idx, items, res1):
+    for (origin, text, structs, table, lines), (binary, _), res in zip(idx, items, res1):
         if res.kind != "ok":
-            chk.violation("input", {"part": "TXT-testdata", "file": fn, "observed": "%s: %s" % (res.kind, res.err[-1500:]),
-                                    "expected": "no sanitizer report / failed CHECK"})
-            continue
-        out = res.out.split("\n")[:-1]
-        ok_lines = [ln for ln, a in zip(lines, out) if a.startswith("ok=1")]
+            out = crash_records(chk, binary, lines, res, origin, text, table)
+        else:
+            out = res.out.split("\n")[:-1]
+        ok_lines = [ln for ln, a in zip(lines, out) if a is not None and a.startswith("ok=1")]
         stats["ok_buffers"] = stats.get("ok_buffers", 0) + len(ok_lines)
         stats["structs"] = stats.get("structs", 0) + len(structs)
-        seen_per_struct = {}
+        stats["structs_with_parameters"] = stats.get("structs_with_parameters", 0) + sum(1 for _, c in structs if c)
+        seen_per_struct, seen_per_call = {}, {}
         lines2 = []
-        for ln in ok_lines:
-            s = ln.split(" ")[0]
-            seen_per_struct[s] = seen_per_struct.get(s, 0) + 1
-            if seen_per_struct[s] > (4 if tier == "quick" else 20):
+        corpus_file = origin.startswith("corpus/")
+        # a spread over the candidate buffers (zero / pattern / random fill, all sizes) rather than
+        # the first few: deterministic shuffle, the all-zero buffers stay in
+        zero_first = [ln for ln in ok_lines if set(ln.split(" ")[5]) <= set("0-")][:2 * len(structs)]
+        rest = [ln for ln in ok_lines if ln not in set(zero_first)]
+        r.shuffle(rest)
+        for ln in zero_first + rest:
+            p = ln.split(" ")
+            s, call = p[0], (p[0],) + tuple(p[6:])
+            seen_per_call[call] = seen_per_call.get(call, 0) + 1
+            if seen_per_call[call] > (4 if tier == "quick" else 20):
                 continue
-            hexbuf = ln.split(" ")[-1]
+            seen_per_struct[s] = seen_per_struct.get(s, 0) + 1
+            if seen_per_struct[s] > ((16 if corpus_file else 8) if tier == "quick" else 60):
+                continue
             for o in opts:
-                lines2.append("%s %d %d %d %d %s" % ((s,) + o + (hexbuf,)))
+                lines2.append("%s %d %d %d %d %s" % ((s,) + o + (" ".join(p[5:]),)))
         stats["structs_with_ok_buffer"] = stats.get("structs_with_ok_buffer", 0) + len(seen_per_struct)
+        stats["parameterized_structs_with_ok_buffer"] = stats.get("parameterized_structs_with_ok_buffer", 0) + \
+            sum(1 for s, c in structs if c and s in seen_per_struct)
         if lines2:
             items2.append((binary, "\n".join(lines2) + "\n"))
-            idx2.append((fn, text, lines2))
-    for (fn, text, lines2), res, (binary2, _) in zip(idx2, T.run_many_long(items2, workers=6), items2):
+            idx2.append((origin, text, table, lines2))
+    for (origin, text, table, lines2), res, (binary2, _) in zip(idx2, T.run_many_long(items2, workers=6), items2):
         if res.kind != "ok":
-            bad = None
-            for ln in lines2:
-                if cppbuild.run(binary2, ln + "\n").kind != "ok":
-                    bad = ln
-                    break
-            rec = {"part": "TXT", "origin": "testdata/" + fn, "emb": text,
-                   "observed": "%s: %s" % (res.kind, res.err[-1500:]), "expected": "no sanitizer report / failed CHECK"}
-            rec.update(T.line_fields(bad))
-            chk.violation("input", rec)
-            continue
+            out2 = crash_records(chk, binary2, lines2, res, origin, text, table)
+        else:
+            out2 = res.out.split("\n")[:-1]
         reported = set()
-        for ln, a in zip(lines2, res.out.split("\n")[:-1]):
+        for ln, a in zip(lines2, out2):
+            if a is None:
+                continue
             chk.count()
             kv = dict(x.split("=", 1) for x in a.split(" ") if "=" in x)
             parts = ln.split(" ")
-            sname, opt, hexbuf = parts[0], tuple(int(x) for x in parts[1:5]), parts[5]
+            sname, opt, hexbuf, params = parts[0], tuple(int(x) for x in parts[1:5]), parts[5], [int(x) for x in parts[6:]]
             t1, t2 = I.unhex(kv.get("text", "")), I.unhex(kv.get("text2", ""))
-            chk.nontrivial("td/%s/%s/%s/%r" % (fn, sname, hexbuf, opt))
+            chk.nontrivial("td/%s/%s%r/%s/%r" % (origin, sname, params, hexbuf, opt))
             stats["cases"] = stats.get("cases", 0) + 1
-            if kv.get("upd") == "1" and t1 == t2:
-                continue
+            if params:
+                stats["cases_with_parameters"] = stats.get("cases_with_parameters", 0) + 1
             try:
                 parsed, _ = T.parse_text(t1)
             except T.ParseError:
                 parsed = None
+            problems = []
+            if parsed is None:
+                problems.append("text does not parse")
+            else:
+                D.check_text(table, D.find_struct(table, sname), parsed, "", problems, stats)
+            rt_failed = not (kv.get("upd") == "1" and t1 == t2)
+            if not rt_failed and not problems:
+                continue
             key = None
-            if opt[0] == 1 and kv.get("upd") != "1" and T.has_long_array(parsed):
+            if (rt_failed and not problems and opt[0] == 1 and kv.get("upd") != "1" and T.has_long_array(parsed)):
                 key = T.FINDING_ARRAY_KEY
                 stats["routed_" + key] = stats.get("routed_" + key, 0) + 1
-            sig = (sname, key)
+            sig = (sname, key, (problems or ["rt"])[0][:40])
             if sig in reported:
                 continue
             reported.add(sig)
             chk.violation("input", {
-                "part": "TXT", "origin": "testdata/" + fn, "emb": text, "struct": sname, "buffer": "" if hexbuf == "-" else hexbuf,
+                "part": "TXT", "origin": origin, "emb": text, "struct": sname, "buffer": "" if hexbuf == "-" else hexbuf,
+                "parameters": params,
                 "options": dict(zip(("multiline", "comments", "base", "grouping"), opt)), "text": t1,
-                "observed": ["UpdateFromText=%s" % kv.get("upd"), "text after: %s" % t2[:500]],
-                "expected": "UpdateFromText true and the same text from the updated buffer"}, key=key)
+                "observed": problems + (["UpdateFromText=%s" % kv.get("upd"), "text after: %s" % t2[:500]] if rt_failed else []),
+                "expected": "UpdateFromText true and the same text from the updated buffer; every field after "
+                            "the fields it depends on"}, key=key)
